@@ -1,24 +1,56 @@
 from vlib import H
 PROPERTY = 'C06'
 LEVEL = 'model_checking'
-CLAIM = 'placeholder'
+CLAIM = ('Block-structure and resource-limit kernels executed symbolically on the real code against references written from the script format, BIP16, BIP34 and BIP141: '
+         '(1) CScript::GetSigOpCount(bool) == reference count for every script of 0..4 and 6 symbolic bytes (every opcode, truncated pushes, CHECKSIG bytes inside push data, OP_n before CHECKMULTISIG, both modes); '
+         '(2) GetLegacySigOpCount / GetP2SHSigOpCount / GetTransactionSigOpCost / CountWitnessSigOps == 4*legacy + 4*accurate redeem-script count + witness sigops (P2WPKH 1, P2WSH accurate witness-script count, P2SH-wrapped forms, other versions 0, coinbase legacy only) with all flag bits symbolic; '
+         '(3) BIP34: CScriptNum::serialize(h) is the minimal encoding for every height 17..2^31-1, CScript()<<data prefixes the length, the bad-cb-height prefix test accepts iff the scriptSig starts with the encoded height, composed CScript()<<h on 0..16 and all length-class boundaries; '
+         '(4) CheckBlock accepts iff the block is non-empty, at most 1,000,000 non-witness bytes (x4 <= 4,000,000), starts with exactly one coinbase, and the summed legacy sigops x4 <= 80,000, with the documented reject reason; '
+         'smallest violations (20001 sigops, 1,000,001 bytes, second coinbase, no coinbase) are rejected.')
+ASSIGN = '_ZNSt6vectorIhSaIhEE13_M_assign_auxIN9prevectorILj36EhjiE14const_iteratorEEEvT_S6_St20forward_iterator_tag'
+def sigcost_unwindset(v):
+    big = 'WRAP' in v or v.get('SPK', 0) >= 1
+    m = 40 if big else max(v.get('SSLEN', 3), v.get('WLEN', 0)) + 2
+    us = ['h_sigcost.%d:44' % k for k in range(0, 40)] + ['ll_memset.0:44']
+    us += ['%s:%d' % (l, m) for l in ('ll_memcpy.0', 'll_memmove.0', 'll_memmove.1', ASSIGN + '.0', ASSIGN + '.1', ASSIGN + '.2')]
+    # the reference scanner is instantiated per length (template parameter): its position loops run exactly that many times
+    for n in set([v.get('SSLEN', 3), v.get('PKLEN', 2), v.get('WLEN', 3)]):
+        us += ['_ZL8ref_scanILi%dEE10ScanResultPKhib.%d:%d' % (n, k, max(n, 4) + 2) for k in (0, 1, 2)]
+    if 'WRAP' in v:
+        us += ['_ZNK7CScript13GetSigOpCountERKS_.%d:40' % k for k in (0, 1, 2)] + ['_Z18CountWitnessSigOpsRK7CScriptS1_RK14CScriptWitness19script_verify_flags.%d:40' % k for k in (0, 1, 2)]
+    return ','.join(us)
 HARNESSES = [
-    H('sigcount', 'sigcount.cpp', 'h_sigcount', link=['script/script.cpp'], variants=[{'SLEN': n} for n in (0, 1, 2, 3, 4, 6)], tvariants=[{'SLEN': n} for n in range(0, 11)],
+    H('sigcount', 'sigcount.cpp', 'h_sigcount', link=['script/script.cpp'], variants=[{'SLEN': n} for n in (2, 3, 4, 6)], tvariants=[{'SLEN': n} for n in range(0, 11)],
       functions=['CScript::GetSigOpCount(bool) (script/script.cpp)', 'GetScriptOp / CScript::GetOp', 'CScript::DecodeOP_N', 'prevector<36,uint8_t>'],
       unwind=16, timeout=300, objbits=10,
-      bounds='every script of length 0..4 bytes (thorough 0..7), all bytes symbolic, both counting modes'),
+      bounds='every script of length 2,3,4,6 bytes (thorough every length 0..10), all bytes symbolic, both counting modes'),
     H('bip34', 'bip34.cpp', 'h_bip34', link=['script/script.cpp'],
-      variants=[{'MODE': 1}, {'MODE': 2, 'NB': 1, 'SSLEN': 4}, {'MODE': 2, 'NB': 3, 'SSLEN': 6}, {'MODE': 2, 'NB': 4, 'SSLEN': 4}, {'MODE': 3}],
+      variants=[{'MODE': 1}, {'MODE': 2, 'NB': 3, 'SSLEN': 6}, {'MODE': 2, 'NB': 4, 'SSLEN': 4}, {'MODE': 3}],
       tvariants=[{'MODE': 1}, {'MODE': 3}] + [{'MODE': 2, 'NB': n, 'SSLEN': l} for n in (1, 2, 3, 4, 5) for l in (n, n + 1, 8)],
       functions=['CScriptNum::serialize', 'CScript::operator<<(int64_t) / push_int64', 'CScript::operator<<(vector) / AppendDataSize / prevector::insert', 'std::equal prefix test of ContextualCheckBlock (same expression)'],
       unwind=40, unwindset='_ZN10CScriptNum9serializeERKl.0:5', memunwind=12, cbmc=['-D', 'VERIF_ALLOC_MAX=32'], timeout=300, objbits=10,
       bounds='MODE 1: every height 17..2^31-1; MODE 2: every 1/3/4-byte (thorough 1..5) pushed value, coinbase scriptSig of 4/6 symbolic bytes; MODE 3: the composed CScript()<<h on 32 concrete heights (0..16 and all length-class boundaries) only'),
     H('sigcost', 'sigcost.cpp', 'h_sigcost', link=['consensus/tx_verify.cpp', 'script/interpreter.cpp', 'script/script.cpp', 'primitives/transaction.cpp', 'uint256.cpp', 'hash.cpp'],
-      variants=[{'SPK': 0, 'SSLEN': 2, 'CLEN': 2}, {'SPK': 1, 'SSLEN': 3}],
+      variants=[{'SPK': 0, 'SSLEN': 2, 'SIG': 'S,S', 'CLEN': 2}, {'SPK': 1, 'SSLEN': 3, 'SIG': '0x02,S,S', 'W_REDEEM': 1}, {'SPK': 1, 'SSLEN': 3, 'SIG': '0x01,S,0xac', 'W_TRAILOP': 1}, {'SPK': 1, 'SSLEN': 3, 'SIG': '0x01,S,0x51', 'W_TRAILN': 1},
+                {'SPK': 1, 'SSLEN': 23, 'WRAP': 1}, {'SPK': 1, 'SSLEN': 24, 'WRAP': 1, 'WRAPPRE': 1}, {'SPK': 2, 'SSLEN': 1, 'SIG': 'S'}, {'SPK': 3, 'SSLEN': 0, 'WN': 2, 'WLEN': 3},
+                {'COINBASE': 1, 'SPK': 1, 'SSLEN': 3, 'SIG': '0x02,S,S'}],
+      tvariants=[{'SPK': 0, 'SSLEN': 2, 'SIG': 'S,S', 'CLEN': 2}, {'SPK': 0, 'SSLEN': 4, 'SIG': 'S,S,S,S', 'CLEN': 4}, {'SPK': 1, 'SSLEN': 3, 'SIG': '0x02,S,S', 'W_REDEEM': 1}, {'SPK': 1, 'SSLEN': 5, 'SIG': '0x04,S,S,S,S', 'W_REDEEM': 1},
+                 {'SPK': 1, 'SSLEN': 5, 'SIG': '0x4c,0x03,S,S,S', 'W_REDEEM': 1}, {'SPK': 1, 'SSLEN': 6, 'SIG': '0x01,S,0x51,0x02,S,S', 'W_REDEEM': 1}, {'SPK': 1, 'SSLEN': 3, 'SIG': '0x01,S,0xac', 'W_TRAILOP': 1}, {'SPK': 1, 'SSLEN': 3, 'SIG': '0x01,S,0x51', 'W_TRAILN': 1},
+                 {'SPK': 1, 'SSLEN': 23, 'WRAP': 1}, {'SPK': 1, 'SSLEN': 24, 'WRAP': 1, 'WRAPPRE': 1}, {'SPK': 1, 'SSLEN': 35, 'WRAP': 1, 'WN': 1, 'WLEN': 3},
+                 {'SPK': 2, 'SSLEN': 1, 'SIG': 'S'}, {'SPK': 3, 'SSLEN': 0, 'WN': 2, 'WLEN': 3}, {'SPK': 3, 'SSLEN': 0, 'WN': 1, 'WLEN': 5}, {'SPK': 3, 'SSLEN': 1, 'SIG': 'S', 'WN': 0}, {'COINBASE': 1, 'SPK': 1, 'SSLEN': 3, 'SIG': '0x02,S,S'}],
       functions=['GetLegacySigOpCount', 'GetP2SHSigOpCount', 'GetTransactionSigOpCost (consensus/tx_verify.cpp)', 'CountWitnessSigOps / WitnessSigOps (script/interpreter.cpp)',
                  'CScript::GetSigOpCount(const CScript&)', 'CScript::IsPayToScriptHash', 'CScript::IsWitnessProgram', 'CScript::IsPushOnly', 'GetScriptOp'],
       stubs=['CCoinsViewCache::AccessCoin answered from a harness coin (phantom view object)', 'CSHA256 unconstrained-output model (txid irrelevant)', 'assertion_fail (util/check.cpp) replaced by a failing assertion'],
       assumptions=['flags never contain WITNESS without P2SH (GetBlockScriptFlags; asserted by CountWitnessSigOps)'],
-      unwind=10, memunwind=40, cbmc=['-D', 'VERIF_ALLOC_MAX=128'], timeout=300, objbits=10, nofmt=True,
-      bounds='one input, one output'),
+      unwind=10, memunwind=0, unwindset=sigcost_unwindset,
+      cbmc=['-D', 'VERIF_ALLOC_MAX=128'], timeout=600, objbits=10, nofmt=True,
+      bounds='one input, one output (2 symbolic bytes), all flag bits symbolic; spent script: 2 arbitrary bytes / 23-byte with the three P2SH template bytes symbolic / 22- and 34-byte with version and push-length bytes symbolic; '
+             'scriptSig: opcode skeleton concrete per variant (SIG template), data bytes symbolic: for P2SH every 2-byte redeem script (thorough: 3- and 4-byte, PUSHDATA1, two pushes), a push followed by CHECKSIG or OP_1, or one push whose redeem-script version/length bytes are symbolic (P2SH-wrapped witness); legacy counting over all 2-byte scriptSigs; witness script of 3 symbolic bytes'),
+    H('checkblock', 'checkblock.cpp', 'h_checkblock', link=['validation.cpp', 'primitives/block.cpp', 'primitives/transaction.cpp', 'script/script.cpp', 'uint256.cpp', 'hash.cpp'],
+      variants=[{'NTX': 1}, {'NTX': 2}, {'NTX': 1, 'SSLEN': 999855}, {'NTX': 1, 'SSLEN': 999856, 'OVERSIZE': 1}], tvariants=[{'NTX': 1}, {'NTX': 2}, {'NTX': 3}, {'NTX': 1, 'SSLEN': 999855}, {'NTX': 1, 'SSLEN': 999856, 'OVERSIZE': 1}],
+      functions=['CheckBlock (validation.cpp)', 'GetSerializeSize(TX_NO_WITNESS(block))', 'CTransaction::IsCoinBase', 'BlockValidationState'],
+      stubs=['GetLegacySigOpCount -> recorded symbolic per-transaction value in [0, 20,000,000]', 'CheckTransaction -> always passes (its rules and reject reasons: C03)', 'CSHA256 unconstrained-output model'],
+      assumptions=['per-transaction legacy sigop count <= 20,000,000 (20 per script byte of a <= 1,000,000-byte block), so the 32-bit sum cannot wrap', 'fCheckPOW=false, fCheckMerkleRoot=false (header/merkle rules are other properties)'],
+      unwind=12, unwindset='_ZNK9base_blobILj256EE8ToStringB5cxx11Ev.0:34', memunwind=104, timeout=600, objbits=10, nofmt=True,
+      bounds='blocks of 1..2 transactions (thorough 3), each 1-in/1-out with symbolic prevout (null or not); size-boundary shapes of exactly 1,000,000 / 1,000,001 non-witness bytes'),
 ]
